@@ -98,10 +98,19 @@ func posExec(cs fw.Case) *fw.Fail {
 		}
 		// ... and when the dump is loaded (exported Load method) into a Prog that held a longer program before
 		var o2, l2 bytes.Buffer
-		q, qerr := bcl.Parse([]byte(strings.Repeat("\n# filler line\n", 40)+"print 1\n\n\n"), "input", bcl.OptOutput(&o2), bcl.OptLogger(&l2))
+		q, qerr := bcl.Parse([]byte(strings.Repeat("\n# filler line\n", 40)+"print 1\n\n\n   print 1 / 0\n"), "input", bcl.OptOutput(&o2), bcl.OptLogger(&l2))
 		if qerr == nil {
+			// the Prog has run and failed before: the error it returned then is the caller's, its text stays what it was
+			_, _, olderr := bcl.Execute(q)
+			oldtext := fmt.Sprint(olderr)
+			if !strings.Contains(oldtext, "line 84:15") {
+				return fw.Failf("the filler program fails at line 84:15", "%s", oldtext)
+			}
 			if lerr := q.Load(bytes.NewReader(dump)); lerr != nil {
 				return fw.Failf("dump loads into a used Prog", "%v", lerr)
+			}
+			if now := fmt.Sprint(olderr); now != oldtext {
+				return fw.Failf("a run-time error returned before Load keeps its text: "+oldtext, "after another program was loaded into the Prog it reads %q", now)
 			}
 			l2.Reset()
 			_, _, e2 := bcl.Execute(q)
@@ -159,6 +168,16 @@ func init() {
 					strings.HasPrefix(s.Name, "stackdepth") || strings.HasPrefix(s.Name, "nest-") || strings.HasPrefix(s.Name, "vars-") || strings.HasPrefix(s.Name, "jump-") || strings.HasPrefix(s.Name, "constpool-") || strings.HasPrefix(s.Name, "nestthen-") || strings.HasPrefix(s.Name, "longtoken-diag") {
 					do(s.Src)
 				}
+			}
+			// a byte order mark in front of the source is not layout: the source is rejected there, and nothing shifts
+			for _, body := range []string{"print 1/0", "", "\nprint )", "print 1\nprint )", "def a { x = 1 }\nbind a -> struct\nbind a -> slice"} {
+				do("\ufeff" + body)
+			}
+			// Unicode line / paragraph separators and other look-alike line ends are ordinary characters of comments and strings
+			for _, sep := range []string{"\u2028", "\u2029", "\u0085", "\v", "\f", "\u000b\u2028"} {
+				do("# a" + sep + "b\nprint )")
+				do("print \"a" + sep + "b\"\nprint 1 +\n")
+				do("def a { s = \"" + sep + sep + "\" } # " + sep + "\n\nbind a -> struct\nbind a -> slice\nprint 1/0")
 			}
 			// strings that run into a line end / the end of input right after a backslash
 			for _, tail := range []string{"", "\n", "\nprint 1", "\r\nprint 1", "\n\"", "\ncd\"\nprint 2"} {
